@@ -656,6 +656,14 @@ class PrecipitateBase(GenericModel):
             aspectRatio = precParams.shapeFactor.aspectRatio(self.pData.Rcrit[self.pData.n, p])
             _, volDG, self._precBetaTemp[p] = nucfuncs.volumetricDrivingForce(self.therm, xComp, T, precParams, aspectRatio, self.removeCache)
             Y.drivingForce[0,p] = volDG
+
+            # Y starts as a copy of the previous state, so clear the nucleation terms of this phase
+            # Otherwise the previous barrier, impingement and nucleation rate would be kept when the calculation is skipped below
+            Y.Rcrit[0,p] = 0
+            Y.Gcrit[0,p] = 0
+            Y.impingement[0,p] = 0
+            Y.nucRate[0,p] = 0
+            Y.Rnuc[0,p] = 0
             if volDG < 0:
                 continue
 
